@@ -43,7 +43,10 @@ def generate(rng, tier, index):
     r = common.pick_rpc(rng, rng.choice(wp["images"])["lines"])
     sets = []
     for _ in range(4):
-        scenario = rng.choice(["same-variable", "different-images", "pickled-copy", "mixed"])
+        scenario = rng.choice(["same-variable", "different-images", "different-images-same-rows",
+                               "pickled-copy", "mixed"])
+        if scenario == "different-images-same-rows" and n_img < 2:
+            scenario = "pickled-copy"
         if scenario == "different-images" and n_img < 2:
             scenario = "same-variable"
         n_act = rng.choice([2, 2, 3])
@@ -52,8 +55,8 @@ def generate(rng, tier, index):
         for a in range(n_act):
             if scenario == "same-variable":
                 img, copy = img0, 0
-            elif scenario == "different-images":
-                img, copy = (img0 + a) % n_img, 0
+            elif scenario in ("different-images", "different-images-same-rows"):
+                img, copy = (img0 + a) % n_img, rng.randrange(2)
             elif scenario == "pickled-copy":
                 img, copy = img0, a % 2
             else:
@@ -61,6 +64,11 @@ def generate(rng, tier, index):
             im = wp["images"][img]
             sels = [select.gen_selection(rng, im["lines"], im["pixels"])
                     for _ in range(rng.choice([1, 1, 2]))]
+            if scenario == "different-images-same-rows" and actors:
+                # the very same selections on another image (same geometry where the product has it)
+                im0 = wp["images"][actors[0]["image"]]
+                if (im0["lines"], im0["pixels"]) == (im["lines"], im["pixels"]):
+                    sels = actors[0]["selections"]
             actors.append({"image": img, "copy": copy, "selections": sels})
         sets.append({"scenario": scenario, "actors": actors})
     k = 12 if tier == "quick" else 40
